@@ -6,35 +6,35 @@ ALL = ["C%02d" % i for i in range(1, 21)]
 
 # property -> (technique, decided clauses (short), not decided / assumptions)
 CLAIMED = {
- "C11": ("loop-direction agreement between encoder and decoder, guarded reflect indexing, error-use analysis of the library delegations, kind-set comparison, buffer-alias value flow (go/ssa)",
-         "C11.1 form codec encodes and decodes slice/array elements in the same direction; C11.2 destination arrays are indexed only after a Len() guard that rejects surplus values; C11.3 every library encode/decode error is returned and every Unmarshal can fail; C11.4 plain codec formats and parses the same set of kinds; C11.5 decoded values never alias the input buffer",
+ "C11": ("loop-direction agreement between encoder and decoder, guarded reflect indexing, error-use analysis of the library delegations, kind-set comparison, buffer-alias value flow, sync.Pool escape analysis (go/ssa)",
+         "C11.1 form codec encodes and decodes slice/array elements in the same direction; C11.2 destination arrays are indexed only after a Len() guard that rejects surplus values; C11.3 every library encode/decode error is returned and every Unmarshal can fail; C11.4 plain codec formats and parses the same set of kinds; C11.5 decoded values never alias the input buffer; C11.6 an encoder never returns bytes living in a pooled object it releases; C11.7 sequence fields are encoded element-wise (whole-field formatting only for non-sequence kinds)",
          "round-trip EQUALITY over the value domain (numeric extremes, UTF-8, nested structs) and decoder totality for arbitrary bytes are value-level and are NOT decided: only these structural necessary conditions are; json/xml/protobuf/thrift library behaviour"),
  "C13": ("shape analysis of the bounded retry counter, dominance chains of the redial closure, path search of the retry loop, path-sensitive drain check (go/ssa)",
-         "C13.1 Next counts down, every re-dial guarded by Next() of a counter built from RedialTimes; C13.2 redial callback/closure order, user id kept, old connection closed; C13.3 exhaustion closes, enters RedialFailed, reports false, and the session ends; C13.4 trigger de-duplication order; C13.5 pending calls are cancelled before any redial; C13.6 writes are retried only for the closed sentinel after a successful redial; C13.7 redial installed iff configured",
-         "behaviour over fault sequences and timing: e.g. after a writer-triggered redial the old reader's readDisconnected still cancels the re-sent call and may close the new socket (observed while reading; needs a schedule, not decided by any rule); server availability windows"),
+         "C13.1 Next counts down, every re-dial guarded by Next() of a counter built from RedialTimes; C13.2 redial callback/closure order, user id kept, old connection closed; C13.3 exhaustion closes, enters RedialFailed, reports false, and the session ends; C13.4 trigger de-duplication order; C13.5 pending calls are cancelled before any redial; C13.6 writes are retried only for the closed sentinel after a successful redial; C13.7 redial installed iff configured; C13.8 a written call keeps an OK status; C13.9 a writer redials only from {PassiveClosed, RedialFailed} (never under a live reader), the reader from PassiveClosing",
+         "behaviour over fault sequences and timing (the rules give the ordering/ownership preconditions, not a proof over schedules); the residual window between a failed reader redial and its PassiveClosed store; server availability windows"),
  "C17": ("method-set check, value identity of the encrypted envelope, dominance of decrypt/refusal edges, constant-key and string-guard matching, path search (go/ssa)",
-         "C17.1 nine stages implemented, push/reply variants delegate; C17.2 on every OK path after marshalling the body is replaced by a fresh Encrypt{version, AESEncrypt(key, marshalled body)}; C17.3 accept decision per secure/plain edge and its use on the write side; C17.4 decrypt only on version match with the plugin's key, refusals are fresh non-OK statuses, restore+decode only after; C17.5 unmarked messages untouched; C17.6 pre-write stage once per outgoing message",
+         "C17.1 nine stages implemented, push/reply variants delegate; C17.2 on every OK path after marshalling the body is replaced by a fresh Encrypt{version, AESEncrypt(key, marshalled body)}; C17.3 accept decision per secure/plain edge and its use on the write side; C17.4 decrypt only on version match with the plugin's key, refusals are fresh non-OK statuses, restore+decode only after; C17.5 unmarked messages untouched; C17.6 pre-write stage once per outgoing message; C17.7 ctx.stat is recorded by the handler closures only on the non-OK edge (the plugin skips encryption on a non-nil status)",
          "confidentiality of the bytes, AES mode and key handling in goutil; a secure-marked message with an EMPTY cipher version is accepted without decryption (crafted input, outside the key-pair quantification; noted in DESIGN); bytes on the wire"),
- "C19": ("must-pass/exactly-once path search, value identity of the forwarded argument and returned body, closure-shape checks, constant-range check, dominance (go/ssa)",
+ "C19": ("must-pass/exactly-once path search, value identity of the forwarded argument and returned body, closure-shape checks, interval analysis of the mapped code range, dominance (go/ssa)",
          "C19.1 forwarded exactly once per path; C19.2 raw body in, backend body out through invocation-local storage, unknown routes bind raw bytes; C19.3 metadata forwarded and copied back (nil-guarded); C19.4 real IP added iff absent; C19.5 the whole 1xx class becomes a NEW 502 status (with C15.1: never mutated in place); C19.6 installed as unknown handlers iff configured; C19.7 no pooled object outlives its Put",
          "equality of proxied and direct outcomes as values (codec/body bytes through two hops); the user-supplied forwarder"),
  "C14": ("discipline analysis from a frozen guard table: field access sets (atomic consistency), intraprocedural must-locksets with one-level caller summaries, publication-order path search, wait-group/lock sharing (go/ssa)",
-         "C14.1 any field accessed atomically somewhere is accessed atomically everywhere (all shipped structs; frozen set present); C14.2 guarded-field table: accesses under the declared mutex (promoted net.Conn methods of socket: known finding F11); C14.3 nothing written to a callCmd after completion is signalled; C14.4 thrift counters under their direction's lock; C14.5 WaitGroup Add/Wait share a mutex (known finding F13)",
+         "C14.1 any field accessed atomically somewhere is accessed atomically everywhere (all shipped structs; frozen set present); C14.2 guarded-field table: accesses under the declared mutex (promoted net.Conn methods of socket: known finding F11); C14.3 nothing written to a callCmd after completion is signalled; C14.4 thrift counters under their direction's lock; C14.5 WaitGroup Add/Wait share a mutex (known finding F13); C14.6 no plain store to a session field after the session was published (index insert / read loop start)",
          "data races on state outside the guard table; real happens-before over schedules (static race freedom is undecidable here: what is decided is the locking/atomic discipline the code itself declares); third-party code"),
  "C18": ("path-sum enumeration of the limiter counters, atomic access sets, data-dependence of the release on per-session evidence, return-shape analysis (go/ssa)",
-         "C18.1 limiter counters atomic-only; C18.2 take/release path sums and the admission comparison; C18.3 a slot is released only in PostDisconnect, only with admission evidence for that session, recorded only on the admit edge; C18.4 refusal edges return fresh non-OK statuses, qps take admits only with a token; C18.5 limiters created only when none exists (updates keep the counters); C18.6 ticker swap order",
+         "C18.1 limiter counters atomic-only; C18.2 take/release path sums and the admission comparison; C18.3 a slot is released only in PostDisconnect, only with admission evidence for that session, recorded only on the admit edge; C18.4 refusal edges return fresh non-OK statuses, qps take admits only with a token; C18.5 limiters created only when none exists (updates keep the counters); C18.6 ticker swap order; C18.7 every refill tick stores a clamped token count",
          "the rate bound over time (token refill arithmetic against wall-clock intervals); newQPSLimiter divides by zero for QPSInterval > 1s (crash at configuration time, outside the rules); limit updates racing takes beyond the locking discipline (C14.2)"),
  "C05": ("per-protocol reach-set tables (writer/reader agreement), counter-direction sibling check, call classification of connection reads, buffer-alias value flow (go/ssa)",
-         "C05.1 all nine Proto implementations cover the full field table in Pack and Unpack (frozen exemptions; websocket status = known finding F4); C05.2 thrift size counters per direction; C05.3 one connection write per frame; C05.5 only full reads on receive paths; C05.6 service method / body never alias the pooled read buffer",
+         "C05.1 all nine Proto implementations cover the full field table in Pack and Unpack (frozen exemptions; websocket status = known finding F4); C05.2 thrift size counters per direction; C05.3 one connection write per frame; C05.5 only full reads on receive paths; C05.6 service method / body never alias the pooled read buffer (incl. gjson sub-strings); C05.7 the filter pipe is undone in the reverse of the order it was applied",
          "round-trip equality over the message space (escaping of quotes/backslashes in the JSON protocols, length boundaries, metadata multimap order), third-party thrift/protobuf framing, chunking inside library readers"),
- "C06": ("dominance of the read-limit check over wire-sized allocations, error-use analysis, cycle analysis of accumulating reads, defer/recover scan, no-go static reachability (go/ssa)",
-         "C06.1 every wire-sized buffer (ChangeLen/make) only after an error-checked SetSize; C06.2 SetSize errors honoured on all receive paths; C06.3 accumulating read loops are bounded; C06.4 recover barriers on reader, handlers and public send/receive entry points; C06.5 raw length arithmetic checked; C06.6 handler goroutines never close their own session synchronously",
+ "C06": ("dominance of the read-limit check over wire-sized allocations, symbolic bound checking (linear forms over SSA atoms + interval analysis refined by dominating comparisons), error-use analysis, cycle analysis of accumulating reads, defer/recover scan, no-go static reachability (go/ssa)",
+         "C06.1 every wire-sized buffer (ChangeLen/make) only after an error-checked SetSize; C06.2 SetSize errors honoured on all receive paths; C06.3 accumulating read loops are bounded; C06.4 recover barriers on reader, handlers and public send/receive entry points; C06.5 raw length arithmetic checked; C06.6 handler goroutines never close their own session synchronously; C06.7 allocated <= the quantity the limit check examined, proved symbolically with wrap-aware linear forms and intervals; C06.8 no narrow-integer arithmetic on receive paths can leave its type",
          "absence of decoder panics (index out of range on short frames is contained by C06.4, not excluded); allocations inside thrift/protobuf/gzip libraries (gzip.OnUnpack inflates without bound); websocket frames are bounded by the websocket layer's own MaxPayloadBytes; wedging by a slow peer (timeouts)"),
  "C12": ("loop-direction matching, error-flow analysis on receive paths, dominance, pooled-buffer escape analysis (go/ssa)",
-         "C12.1 OnPack descending / OnUnpack ascending, errors stop; C12.2 Append refuses unregistered ids and its error is checked on every receive path; C12.3 reply inherits the caller's pipe before handler/stages/writes; C12.4 md5 verify guards the data; C12.5 every protocol carries the pipe; C12.6 no pooled buffer escapes its release; C12.7 the reply's pipe is never reset on the reply path",
+         "C12.1 OnPack descending / OnUnpack ascending, errors stop; C12.2 Append refuses unregistered ids and its error is checked on every receive path; C12.3 reply inherits the caller's pipe before handler/stages/writes; C12.4 md5 verify guards the data; C12.5 every protocol carries the pipe; C12.6 no pooled buffer escapes its release; C12.7 the reply's pipe is never reset on the reply path; C12.8 the pipe section is measured without wrapping arithmetic (a pipe of 255 filters)",
          "exact inversion for all payloads (gzip/md5 library correctness); user-registered filters"),
  "C04": ("constant tables, sibling-shape comparison of the eight handler closures, phi-origin/dominance analysis of the caller-visible status, per-protocol reach-sets (go/ssa)",
-         "C04.1 code table and sentinel construction; C04.2 error reply sets status and clears body+codec before the write; C04.3 handler closures plumb status/body uniformly; C04.4 caller's status = wire status, else recorded read/decode error, else hook verdict, never overwriting an earlier veto; C04.6 every Proto implementation reads and decodes the status (websocket sub-protocols: known finding F4); C04.7 panic -> 500; C04.8 refusal -> 102 sentinel; C04.9 Status(true) allocates",
+         "C04.1 code table and sentinel construction; C04.2 error reply sets status and clears body+codec before the write; C04.3 handler closures plumb status/body uniformly; C04.4 caller's status = wire status, else recorded read/decode error, else hook verdict, never overwriting an earlier veto; C04.6 every Proto implementation reads and decodes the status (websocket sub-protocols: known finding F4); C04.7 panic -> 500; C04.8 refusal -> 102 sentinel; C04.9 Status(true) allocates; C04.10 pooled inputs never get a status object (re-)installed, so a published call status is stable; C04.11 the decode of a received status is never conditional on the field's length or content",
          "value fidelity of the status encodings (code/msg/cause bytes through query/JSON escaping); user handlers"),
  "C10": ("guarded-insert (value identity + dominance + no-return), field access sets per namespace, return-shape analysis (go/ssa)",
          "C10.1 table insert guarded by the lookup of the same handler's name in the same pass; conflict edge is fatal; C10.2 CALL/PUSH separation end to end (reg table choice, registration entries with their makers, getCall/getPush access sets, session wiring, bindCall/bindPush); C10.3 exact-match / unknown / not-found return shape; C10.4 returned names are the inserted keys",
@@ -43,19 +43,19 @@ CLAIMED = {
          "C09.1 every stage function: ascending range, one assertion to its own interface, one call on the ok edge, first failure stops and is returned; C09.2 refresh = left++middle++right, appendLeft/Right sides, derived container shares left/right, own middle, refresh chained transitively; C09.3 derived lists own their storage; C09.4 each stage called exactly from its frozen callers, once, in stage order, post-write only after success; C09.5 veto edges reach no later stage/handler/write and the vetoing status is kept; C09.6 container selection (global first, handler's container before body stages); C09.7 handler only on OK edges",
          "plugin programs themselves; PostNewPeer/PostReg/PostListen fatal paths; ordering between different sessions"),
  "C01": ("value-identity, dominance, lockset, who-may-call and buffer-alias value-flow analyses over go/ssa",
-         "C01.1 seq atomic-only; C01.2 pending-table key = frame seq = one atomic increment, stored before every write; C01.3 reply bound by the frame's own seq, body decoded into that call's result, metadata copied not aliased; C01.4 every WriteMessage under writeLock, Pack only from WriteMessage; C01.5 single reader, Unpack only from ReadMessage; C01.6 no use of a context after putContext; C01.7 pooled controllers: Get/bind/Call/Put order, fresh controller per pool object; C01.8 nothing derived without copy from a decoder's input buffer is stored into the decoded value (taint over []byte/string/url.Values/reflect.Value with library alias summaries)",
+         "C01.1 seq atomic-only; C01.2 pending-table key = frame seq = one atomic increment, stored before every write; C01.3 reply bound by the frame's own seq, body decoded into that call's result, metadata copied not aliased; C01.4 every WriteMessage under writeLock, Pack only from WriteMessage; C01.5 single reader, Unpack only from ReadMessage; C01.6 no use of a context after putContext; C01.7 pooled controllers: Get/bind/Call/Put order, fresh controller per pool object; C01.8 nothing derived without copy from a decoder's input buffer is stored into the decoded value (taint over []byte/string/url.Values/reflect.Value with library alias summaries); C01.9 no message/context/buffer is released to its pool twice by one activation",
          "interleaving-level non-interference (the rules give the lock/ownership preconditions, not a proof over schedules); internals of sync.Map, encoding/json, encoding/xml, protobuf and thrift decoders (assumed to copy); third-party Proto implementations"),
  "C15": ("field-based, context-insensitive value-flow (taint) analysis over go/ssa + VTA/CHA call edges: sources = every package-level *Status, sinks = status mutators",
          "C15.1 no mutator (SetCode/SetMsg/SetCause/Clear/DecodeQuery/UnmarshalJSON/TagStack/store through pointer) in shipped code is applied to a value that may alias a predefined status; C15.2 the decode-into-message sites own their status (origin of every message handed to ReadMessage/Unpack; no SetStatus on pooled inputs; Status(true) allocates); C15.3 sentinels assigned only by their initialiser",
          "user code and third-party plugins; statuses reaching user handlers by reference (documented as shared); aliasing is field-based (over-approximate): a report names the flow path"),
  "C08": ("ordering analysis of the close protocol: dominance chains, exactly-once release by path search, constant tables, loop-shape matching (go/ssa)",
-         "C08.1 closeLocked: CAS -> delete -> notify -> wait handlers -> wait calls -> ActiveClosed -> socket.Close -> hook as one dominance chain; C08.2 handler wait-group Add before dispatch, exactly one release on the dispatched / Go()-failed paths, Push pairing, getContext/putContext count iff withWg; C08.3 goonRead = {Ok,ActiveClosing}, checkStatus membership, graceCtxWait; C08.4 peer.Close: listeners first, one counted async Close per session, exactly count results awaited",
+         "C08.1 closeLocked: CAS -> delete -> notify -> wait handlers -> wait calls -> ActiveClosed -> socket.Close -> hook as one dominance chain; C08.2 handler wait-group Add before dispatch, exactly one release on the dispatched / Go()-failed paths, Push pairing, getContext/putContext count iff withWg; C08.3 goonRead = {Ok,ActiveClosing}, checkStatus membership, graceCtxWait; C08.4 peer.Close: listeners first, one counted async Close per session, exactly count results awaited; C08.5 entered handlers always reply; C08.6 the read loop gates only on {Ok, ActiveClosing}; C08.7 every Close queues on the session lock and reaches closeLocked",
          "'returns only after' as a timing statement; handlers entered after the wait returned (Add concurrent with Wait at zero is C14.5); the peer's behaviour"),
  "C16": ("order-of-establishment analysis: dominance of hook-success edges, gate predicates, who-may-call/value-escape analysis, return-value provenance (go/ssa)",
-         "C16.1 the read loop starts only on the hook-success edge at the four establishment sites and nowhere else; C16.2 Pre* session I/O only on the statusPreparing edge; C16.3 binding (per-message entry) installed only on pooled contexts, never called directly, socket readers are the read loop and PreReceive; C16.4 PostAccept returns nil only without checker, else the checker's status or the send failure; PostDial returns the bearer's status; C16.5 once-closures: per-invocation flag, CAS, misuse status, I/O only after success (with C07.3/C07.6/C07.11 and C09.1 for hook order/veto)",
+         "C16.1 the read loop starts only on the hook-success edge at the four establishment sites and nowhere else; C16.2 Pre* session I/O only on the statusPreparing edge; C16.3 binding (per-message entry) installed only on pooled contexts, never called directly, socket readers are the read loop and PreReceive; C16.4 PostAccept returns nil only without checker, else the checker's status or the send failure; PostDial returns the bearer's status; C16.5 once-closures: per-invocation flag, CAS, misuse status, I/O only after success (with C07.3/C07.6/C07.11 and C09.1 for hook order/veto); C16.6 rejected connections leave the index; C16.7 a panicking hook rejects (the recover branch sets the returned result)",
          "bytes a client pipelines behind the auth frame stay buffered in the socket reader and are processed after a successful exchange (run-time question); user checker functions; RawPush is not gated (documented for hook use)"),
  "C03": ("dispatch / exactly-once analysis: who-may-call, exhaustive constant-dispatch by value tracking, dominance on OK edges, must-pass-through for the reply, static reachability (go/ssa)",
-         "C03.1 handle() has one caller, once per message; C03.2 handle()/binding() dispatch exactly {Call,Reply,Push}, everything else disconnects / is marked not-allowed; C03.3 handler at most once and only on the OK edges of c.stat and of the body hook, handler fields read nowhere else; C03.4 writeReply on every normal path, second write only after a failed first, written flag only after success; C03.5 panic path: recover, 500 copy, reply iff nothing written; C03.6 reply seq/type from the request; C03.7 push paths cannot reach a write; C03.8 every nil return of bindCall leaves a non-OK status; C03.9 read-error classification in the read loop",
+         "C03.1 handle() has one caller, once per message; C03.2 handle()/binding() dispatch exactly {Call,Reply,Push}, everything else disconnects / is marked not-allowed; C03.3 handler at most once and only on the OK edges of c.stat and of the body hook, handler fields read nowhere else; C03.4 writeReply on every normal path, second write only after a failed first, written flag only after success; C03.5 panic path: recover, 500 copy, reply iff nothing written; C03.6 reply seq/type from the request; C03.7 push paths cannot reach a write; C03.8 every nil return of bindCall leaves a non-OK status; C03.9 read-error classification in the read loop; C03.10 an error reply is always encodable; C03.11 a Pack that fails has written nothing (or tears the transport down), so the fallback reply is never a second reply",
          "behaviour of handler programs and plugins; concurrent arrivals are covered only through the single-reader/once-per-iteration structure (C01.5, C03.1); Go() pool exhaustion drops a CALL without reply (documented load shedding, see DESIGN section 4)"),
  "C02": ("must-pass-through / dominance / who-may-call analysis of the call-completion protocol over go/ssa, with path-sensitive status tracking",
          "C02.1 completion effects (send, close(doneChan), WaitGroup.Done) only in done/cancel, once each in order; C02.2 callers of done/cancel and their guards; C02.3 completion under the per-call mutex at all three sites; C02.4 bindReply marks the call replied on every path after Lock; C02.5 the lock taken in bindReply is released on every path of the read loop incl. Go() failure and the panic edge; C02.6 disconnect drains the pending table on every non-closed path before close/redial/hook; C02.7 a published call is written or completed on every return of AsyncCall; C02.8 read-loop recover+readDisconnected barrier; C02.9 call wait-group Add/Done pairing",
@@ -64,7 +64,7 @@ CLAIMED = {
          "C07.1 status/didCloseNotify encapsulated and atomic-only; C07.2 all 12+ transition sites: closing states entered only by CAS from explicit (or loaded, non-closed) sources, closed states never left without redial, blind stores only where the path owns the state; C07.3 Ok only after accept/dial hooks (incl. callback/dialWithRetry composition); C07.4 close-notify once; C07.5/9 write gate {Ok}|(ActiveClosing & Reply) and sentinel refusal; C07.6 index insert after hooks, delete on both close paths, SetID order; C07.7 takeover: nothing that may reach hub.delete after the new session is stored; C07.8 disconnect hook exactly once per close path and no other caller; C07.10 read gates",
          "conformance of whole histories to the state machine; SetID collision policy; the residual race of a passively disconnecting old session deleting a re-used id; timing"),
  "C20": ("static reset-completeness + pool dominance/must-pass analysis over go/ssa",
-         "C20.1 every field of Message, handlerCtx, Args, XferPipe, ByteBuffer, socket is reset to its default on every path of the reset function (a new field without reset fails by construction); C20.2 each sync.Pool has the reset on its only Put or only Get side; C20.3 getContext = clean then reInit on all paths, reInit installs fresh swap + session",
+         "C20.1 every field of Message, handlerCtx, Args, XferPipe, ByteBuffer, socket is reset to its default on every path of the reset function (a new field without reset fails by construction); C20.2 each sync.Pool has the reset on its only Put or only Get side; C20.3 getContext = clean then reInit on all paths, reInit installs fresh swap + session; C20.4/5 no pooled buffer/object outlives its release; C20.6 recycled metadata slots are fully overwritten; C20.7 no object is released twice; delegated resets (SetID(\"\")) are followed into the setter",
          "user-defined fields of pooled controller structs (by design); value semantics of the called sub-reset methods beyond their own C20.1 instance; exempt fields listed with reasons in rules_c20.go"),
 }
 
